@@ -11,6 +11,16 @@
 
 vf_results R;
 vf_args A;
+/* memory budget of one exploration process: resident set above the limit -> the engines stop expanding and report the
+ * cap "memory" (exhaustive:false) instead of running the sandbox out of memory (a code change that adds monotone
+ * counters or time-stamps to the state makes a closure infinite).  VF_MEMLIM_MB overrides (default 3500 quick, 18000 thorough). */
+int vf_mem_exceeded(void) {
+    static long limit_pages = -1;
+    if (limit_pages < 0) { const char *e = getenv("VF_MEMLIM_MB"); long mb = e ? atol(e) : (vf_thorough() ? 18000 : 3500); limit_pages = mb * 256; }
+    FILE *f = fopen("/proc/self/statm", "r"); if (!f) return 0;
+    long size = 0, res = 0; int n = fscanf(f, "%ld %ld", &size, &res); fclose(f);
+    return n == 2 && res > limit_pages;
+}
 void (*vf_cex_writer)(FILE *f);
 /* builds without mc/world.c (the real Linux port / embedded daemon) have no virtual clock: weak default */
 __attribute__((weak)) uint64_t vf_clock_origin = 1000000;
